@@ -22,6 +22,8 @@ package zapcore
 
 import "sync"
 
+import "go.uber.org/zap/internal/verifhook"
+
 type lazyWithCore struct {
 	Core
 	sync.Once
@@ -39,6 +41,7 @@ func NewLazyWith(core Core, fields []Field) Core {
 
 func (d *lazyWithCore) initOnce() {
 	d.Once.Do(func() {
+		verifhook.Point("lazy.init.inside")
 		d.Core = d.Core.With(d.fields)
 	})
 }
